@@ -124,11 +124,17 @@ func c11scenario(rep *vh.Report, seed uint64, idx int) {
 	for g := range s.outstanding {
 		s.outstanding[g] = make([]int32, k)
 	}
+	srSeen := make([]int32, k)
+	itemsSeen := make([]int32, k) // written items (stream requests of the node itself not counted)
 	for ti, tr := range s.trs {
 		ti := ti
 		tr.OnWrite(func(rec *fake.WriteRec) {
 			if f, _, st := ref.ParseAt(rec.Data, 0); st == ref.ParseOK {
+				if f.MsgID == 66 {
+					atomic.AddInt32(&srSeen[ti], 1)
+				}
 				if uid, ok := uidOfWire(f); ok && uid>>56 == 0xC1 {
+					atomic.AddInt32(&itemsSeen[ti], 1)
 					g := int(uid >> 40 & 0xFFFF)
 					if g < G {
 						atomic.AddInt32(&s.outstanding[g][ti], -1)
@@ -144,12 +150,15 @@ func c11scenario(rep *vh.Report, seed uint64, idx int) {
 		inWG.Add(1)
 		go func(ti int, tr *fake.Transport) {
 			defer inWG.Done()
+			srSent := 0
 			for i := 0; atomic.LoadInt32(&stopIn) == 0; i++ {
 				tr.Feed(uidFrame(uint64(0xAA)<<56|uint64(ti)<<32|uint64(i), byte(i), 9, false, nil, 0))
-				if withSR && i%60 == 30 {
+				if withSR && i%60 == 30 && atomic.LoadInt32(&srSeen[ti]) == int32(srSent) {
 					// an ArduPilot heartbeat from a new sender: the node answers with 7 requests on this channel, written
-					// through the same queue as everything else (7 of the 16 slots that flow control leaves free)
+					// through the same queue as everything else. At most one such burst is outstanding per channel
+					// (7 of the 16 slots that flow control leaves free), so the queue cannot overflow.
 					tr.Feed(hbFrame(byte(1+i/60%250), byte(1+ti), 3, 0))
+					srSent += 7
 				}
 				time.Sleep(time.Duration(100+ti*37) * time.Microsecond)
 			}
@@ -359,8 +368,8 @@ func c11scenario(rep *vh.Report, seed uint64, idx int) {
 		expectedOn[kk.tr]++
 	}
 	waitFor(func() bool {
-		for ti, tr := range s.trs {
-			if ti != victim && tr.NWrites() < expectedOn[ti] {
+		for ti := range s.trs {
+			if ti != victim && int(atomic.LoadInt32(&itemsSeen[ti])) < expectedOn[ti] {
 				return false
 			}
 		}
@@ -453,7 +462,8 @@ func c11scenario(rep *vh.Report, seed uint64, idx int) {
 			if kk.tr == ti && count[kk.uid] == 0 {
 				rep.Violation("what=loss:"+c.Op+" ep=custom",
 					fmt.Sprintf("an item written with %s never reached channel %d although the channel was open for the whole call and its backlog stayed below 64", c.Op, ti),
-					map[string]interface{}{"uid": fmt.Sprintf("%x", kk.uid), "backlog_at_quiescence": backlog, "writers": G, "window": W, "channels": k})
+					map[string]interface{}{"uid": fmt.Sprintf("%x", kk.uid), "backlog_at_quiescence": backlog, "writers": G, "window": W, "channels": k,
+						"scenario": idx, "v1_node": v1node, "stream_requests": withSR, "closing_channel": victim, "wire_frames_on_channel": len(frames), "expected_on_channel": expectedOn[ti]})
 				break
 			}
 		}
